@@ -20,6 +20,7 @@ import tempfile
 
 from sim import bufrgen, core, streamsim
 
+ALIAS_OMITS = ('14', '22', '30')
 FORMATS = ('flat_text', 'nested_text', 'flat_json', 'nested_json')
 
 
@@ -100,8 +101,21 @@ class World(object):
         T.open = self.io.open
         T.MAXIMUM_NUMBER_OF_CACHED_TABLE_GROUPS = plan.get('limit', 50)
         self.tmp = tempfile.mkdtemp(prefix='verif-hist-')
+        # the alias root is a second, *partial* tables root: every bundled directory is reachable through
+        # symlinks except a few master table versions, for which the library's fallback to its default
+        # version applies (so the two roots are not interchangeable)
         self.roots = {'bundled': None, 'alias': os.path.join(self.tmp, 'tables')}
-        os.symlink(DEFAULT_TABLES_DIR, self.roots['alias'])
+        for mt in sorted(os.listdir(DEFAULT_TABLES_DIR)):
+            os.makedirs(os.path.join(self.roots['alias'], mt))
+            for centres in sorted(os.listdir(os.path.join(DEFAULT_TABLES_DIR, mt))):
+                src = os.path.join(DEFAULT_TABLES_DIR, mt, centres)
+                if centres != '0_0':
+                    os.symlink(src, os.path.join(self.roots['alias'], mt, centres))
+                    continue
+                os.makedirs(os.path.join(self.roots['alias'], mt, centres))
+                for v in sorted(os.listdir(src)):
+                    if v not in ALIAS_OMITS:
+                        os.symlink(os.path.join(src, v), os.path.join(self.roots['alias'], mt, centres, v))
         self.clients = [self.make_client(c) for c in plan['clients']]
         self.handles = {}
         self.disk = {}
@@ -315,6 +329,8 @@ def ref_spec(plan, i, compiled_override=None):
         dop = plan['ops'][op['h']]
         dcomp = clients[dop['c']].get('compiled') is not None
         ecomp = clients[op['c']].get('compiled') is not None if 'c' in op else False
+        droot = clients[dop['c']].get('root', 'bundled')
+        eroot = clients[op['c']].get('root', 'bundled') if 'c' in op else 'bundled'
         # m.wire() is an explicit, documented mutation: a handle wired by an earlier `wire` op is the
         # same thing as a handle decoded with wiring on
         wired = dop.get('wire', True) or any(o['op'] == 'wire' and o.get('h') == op['h'] for o in plan['ops'][:i])
@@ -331,21 +347,23 @@ def ref_spec(plan, i, compiled_override=None):
         o2['m'] = 0
         if k in ('encode', 'encode_bad'):
             dcomp, ecomp = False, clients[op['c']].get('compiled') is not None
+            droot, eroot = 'bundled', clients[op['c']].get('root', 'bundled')
             o2['c'] = 1
         else:
             dcomp, ecomp = clients[op['c']].get('compiled') is not None, False
+            droot, eroot = clients[op['c']].get('root', 'bundled'), 'bundled'
             o2['c'] = 0
         chain.append(o2)
     if compiled_override is not None:
         dcomp = dcomp and compiled_override
         ecomp = ecomp and compiled_override
     msg = plan['msgs'][mi]
-    key = _h(json.dumps([msg['ref'], _h(msg['hex']), dcomp, ecomp,
+    key = _h(json.dumps([msg['ref'], _h(msg['hex']), dcomp, ecomp, droot, eroot,
                          [dict((a, b) for a, b in c.items() if a not in ('c', 'm', 'h')) for c in chain]],
                         sort_keys=True))
     mini = {'engine': 'histsim', 'family': 'ref', 'seed': 0, 'limit': 50,
-            'clients': [{'compiled': 8 if dcomp else None, 'root': 'bundled'},
-                        {'compiled': 8 if ecomp else None, 'root': 'bundled'}],
+            'clients': [{'compiled': 8 if dcomp else None, 'root': droot},
+                        {'compiled': 8 if ecomp else None, 'root': eroot}],
             'msgs': [msg], 'ops': chain}
     return key, mini
 
@@ -461,9 +479,10 @@ def gen_plan(family, seed, msgs, tier='quick'):
     for m in msgs:
         if m.get('twin'):
             twins.setdefault(m['twin'], []).append(m)
-    twin_groups = [v for v in twins.values() if len(v) == 2]
-    if twin_groups and (c08 or rng.random() < 0.5):
-        chosen.extend(rng.choice(twin_groups))
+    twin_groups = [twins[k] for k in sorted(twins) if len(twins[k]) >= 2]
+    if twin_groups and (c08 or rng.random() < 0.6):
+        for g in rng.sample(twin_groups, min(len(twin_groups), rng.randint(1, 2))):
+            chosen.extend(g)
     if c08:
         mk = [m for m in msgs if m['marker']]
         if mk:
@@ -563,6 +582,17 @@ def gen_plan(family, seed, msgs, tier='quick'):
             op = {'op': 'lookup', 'version': rng.choice(versions), 'root': rng.choice(['bundled', 'alias'])}
         elif k == 'arm_io':
             op = {'op': 'arm_io', 'kind': rng.choice(['eio', 'emfile', 'short', 'enoent']), 'nth': rng.randint(1, 4)}
+            if rng.random() < 0.7:
+                # place the fault inside an operation that loads tables, then come back to the same
+                # message: a failed load must not leave anything half-built behind
+                ops.append(op)
+                ops.append({'op': 'decode', 'c': c, 'm': mi, 'wire': True, 'ive': False})
+                handles.append((len(ops) - 1, mi, chosen[mi]['nsub'], True))
+                if rng.random() < 0.7:
+                    c2 = c if rng.random() < 0.5 else rng.randrange(nclients)
+                    ops.append({'op': 'decode', 'c': c2, 'm': mi, 'wire': True, 'ive': False})
+                    handles.append((len(ops) - 1, mi, chosen[mi]['nsub'], True))
+                continue
         elif k == 'restart':
             op = {'op': 'restart', 'c': c}
         elif k == 'invalidate':
